@@ -51,7 +51,7 @@ Fixpoint dir_sector_go (n : nat) (fat : list N) (sid : N) : res N :=
   match n with
   | O => Ok sid
   | S n' =>
-    if sid =? END_OF_CHAIN then Panic 403      (* debug_assert_ne! *)
+    if sid =? END_OF_CHAIN then Err EInvalidData      (* the directory chain was cut short *)
     else rbind (next_of fat sid) (fun nx => dir_sector_go n' fat nx)
   end.
 Definition write_in_dir_entry (id off : N) (bs : list byte) : M unit :=
@@ -181,7 +181,7 @@ Fixpoint write_entries (ids : list N) : M unit :=
   | id :: t => write_dir_entry id ;; write_entries t
   end.
 
-Definition remove_dir_entry (parent : N) (nm : name) : M unit :=
+Definition remove_dir_entry_inner (parent : N) (nm : name) : M unit :=
   do p <- dir_entry parent;
   do s <- get;
   do path <- lift (remove_find (S (length (dirs s))) (dirs s) nm (d_child p) []);
@@ -232,4 +232,13 @@ Definition remove_dir_entry (parent : N) (nm : name) : M unit :=
      set_dir_entry parent (set_child pe repl) ;; write_in_dir_entry parent DE_OFF_CHILD (le_bytes 4 repl)
    end) ;;
   free_dir_entry id
+  end.
+
+(* every in-memory entry is recorded before it is changed; when the removal fails part-way the
+   recorded values are put back, so the table in memory is the one the call started with
+   (the bytes already written stay written) *)
+Definition remove_dir_entry (parent : N) (nm : name) : M unit := fun s =>
+  match remove_dir_entry_inner parent nm s with
+  | (s', Ok u) => (s', Ok u)
+  | (s', r) => (w_dirs s' (dirs s), r)
   end.
